@@ -328,6 +328,7 @@ def check_read_side(run, inp: Input, case: dict) -> None:
 
 VITAMIN_WORLD_BASE = 100000
 DUPS_WORLD_BASE = 200000
+WIDE_VIS_WORLD_BASE = 150000   # (below the dups worlds: those are recognised by wi >= DUPS_WORLD_BASE)
 
 WORLD_VARIANTS = [
     dict(),  # everything drawn from the rng
@@ -352,6 +353,9 @@ def make_world(seed: int, wi: int, layout: str, variant: int) -> dict:
     # VitaminSource file.  The library's views of those lumps are empty by definition on that layout and a save writes them
     # back empty.  The statement demands "equal parsed content for every lump that has [a view]" - which holds ([] == []) -
     # so such files are NOT generated: judging them byte-wise would demand more than the property states (DESIGN.md 9.2).
+    if WIDE_VIS_WORLD_BASE <= wi < DUPS_WORLD_BASE:
+        # a map with more than 4080 visibility clusters: rows long enough for zero runs of two and three full run-length sections
+        opts = dict(vis='wide', vis_clusters=(4100, 6200)[variant % 2], scale=1, lzma=False)
     if wi >= DUPS_WORLD_BASE:
         # repeated / identical table entries (gen_bsp.apply_dups); needs tables with several entries
         opts.update(dups=True, scale=2 + variant % 2)
@@ -402,6 +406,7 @@ def main(run, shard=(0, 1)) -> None:
         n_worlds = (15 if thorough else 3) * len(layouts)
         plan = [(wi, layouts[wi % len(layouts)], wi // len(layouts)) for wi in range(n_worlds)]
         plan += [(VITAMIN_WORLD_BASE + j, 'vitamin', j) for j in range(15 if thorough else 3)]
+        plan += [(WIDE_VIS_WORLD_BASE + j, layouts[j % len(layouts)], j) for j in range(6 if thorough else 2)]
         all_layouts = list(G.LAYOUTS)
         plan += [(DUPS_WORLD_BASE + j, all_layouts[j % len(all_layouts)], j // len(all_layouts))
                  for j in range(len(all_layouts) * (4 if thorough else 1))]
@@ -410,7 +415,10 @@ def main(run, shard=(0, 1)) -> None:
             inp = None
             seq_rng = sub_rng(run.seed, 'seqs', wi)
             all_pairs = thorough and variant in (0, 3)
-            if wi >= DUPS_WORLD_BASE:
+            if WIDE_VIS_WORLD_BASE <= wi < DUPS_WORLD_BASE:
+                seqs = [['visibility'], ['visibility', 'ents'], []]
+                run.count('worlds_with_more_than_4080_clusters')
+            elif wi >= DUPS_WORLD_BASE:
                 seqs = sequences(seq_rng, 60 if thorough else 3, 40 if thorough else 2, False)
             else:
                 seqs = sequences(seq_rng, 60 if thorough else 6, 40 if thorough else 3, all_pairs)
@@ -511,4 +519,4 @@ def replay(run, data) -> None:
 
 
 # (kept at the end of the file so that the text above stays the description the check was first built to)
-RULE += ' ' + 'Later additions: after the cycle, the same object touches two further views and is saved in place (save() without a file name) - the parsed content must still be the original; entity keys that need escaping. Every third world is also written without an entity lump at all and taken through the same read / touch / save cycles.'
+RULE += ' ' + 'Later additions: after the cycle, the same object touches two further views and is saved in place (save() without a file name) - the parsed content must still be the original; entity keys that need escaping. Every third world is also written without an entity lump at all and taken through the same read / touch / save cycles. Two worlds (six in the thorough tier) have 4100 / 6200 visibility clusters, so that rows hold zero runs of two and three full run-length sections.'
